@@ -19,7 +19,7 @@ def c12_jobs(tier):
         # termination clause: a reproducible hang inside a solve is a violation (cases are small, the open case is the culprit)
         sh = 1 if q else 2
         for k in range(sh):
-            js.append(mjob('solve-r%d-s%d' % (r, k), 'c12', 'mpi-plain', r, ['--sub', 'solve'] + (['--shard', '%d/%d' % (k, sh)] if sh > 1 else []), timeout=900 if q else 1800, hang_is_violation=True))   # measured: 3-5 s quick, < 60 s thorough per job
+            js.append(mjob('solve-r%d-s%d' % (r, k), 'c12', 'mpi-plain', r, ['--sub', 'solve'] + (['--shard', '%d/%d' % (k, sh)] if sh > 1 else []), timeout=2400 if q else 5400, hang_is_violation=True))   # measured: 3-25 s per job idle, up to 390 s with the machine at load 70
     for r in ((2, 5) if q else (1, 2, 3, 4, 5, 6, 7, 8)):
         js.append(mjob('setup-r%d' % r, 'c12', 'mpi-plain', r, ['--sub', 'pmis,direct'], timeout=2400))
     # block size > 1 together with near-null-space vectors: separate processes (see sub_pmis in the harness)
@@ -27,7 +27,7 @@ def c12_jobs(tier):
         js.append(mjob('pmisbk-r%d' % r, 'c12', 'mpi-plain', r, ['--sub', 'pmis_bk'], timeout=2400))
     js.append(mjob('asan-pmisbk-r2', 'c12', 'mpi-asan', 2, ['--sub', 'pmis_bk', '--pmis_bk_cases=4'], timeout=3600))
     for r in ((3, 7) if q else (1, 2, 4, 5, 8)):
-        js.append(mjob('block-r%d' % r, 'c12b', 'mpi-plain', r, timeout=900 if q else 2400, hang_is_violation=True))   # measured: 10 s quick
+        js.append(mjob('block-r%d' % r, 'c12b', 'mpi-plain', r, timeout=2400 if q else 5400, hang_is_violation=True))   # measured: 10 s idle, 240 s at load 70
     if q:
         js.append(mjob('asan-r3', 'c12', 'mpi-asan', 3, ['--sub', 'solve,pmis,direct', '--solves=12', '--pmis_cases=8', '--direct_cases=8'], timeout=3600))
         js.append(mjob('asan-block-r2', 'c12b', 'mpi-asan', 2, ['--block_solves=6', '--sdd_solves=4', '--bp_solves=4', '--direct_cases=6'], timeout=3600))
@@ -41,8 +41,13 @@ PROPS['C12'] = dict(
     level='exploration', jobs=c12_jobs,
     rule='Every rank generates the same global SPD M-matrix (G1 model sub-family: 5/9-point 2-D and 7-point 3-D variable-coefficient diffusion, contrast <= 10, anisotropy >= 0.1; G2: geometric or Erdos-Renyi graph Laplacians, average degree 5-8, positive shift on every vertex; 300 <= n <= 900 quick / 1500 thorough; the generator output is validated to be symmetric, diagonally dominant with non-positive off-diagonals and lambda_min > 0) '
          'and keeps the rows of a random contiguous partition (balanced / random cuts / forced empty ranks / everything on one rank). '
-         'solve: cell k of the 576-cell cross product {aggregation, smoothed_aggregation} x 9 relaxations x 8 Krylov solvers x {skyline_lu, eigen_splu} x {no repartition, merge} is (offset(ranks, seed) + 115 k) mod 576, tol 1e-8, maxiter 300 (1000 Richardson); 20 % of the calls are budget-limited (maxiter 3-9, no convergence clause), 20 % start from x0 != 0, 25 % of the eligible solvers use left preconditioning. '
+         'solve: cell k of the 576-cell cross product {aggregation, smoothed_aggregation} x 9 relaxations x 8 Krylov solvers x {skyline_lu, eigen_splu} x {no repartition, merge} is (offset(ranks, seed) + 115 k) mod 576, tol 1e-8, maxiter 300 (1000 Richardson); 20 % of the calls are budget-limited (maxiter 3-9, no convergence clause), 20 % start from x0 != 0, 25 % of the eligible solvers use left preconditioning; over_interp in {1, 1.25, 1.5}. '
+         'Convergence clause: absolute for the 7 Krylov methods; for Richardson (a stationary iteration, convergent iff rho(I-BA) < 1, which already fails on one rank for aggregation + damped_jacobi on a G2 graph) it is differential: the distributed run must converge whenever the same configuration run by rank 0 alone (MPI_COMM_SELF) converges. '
          'pmis/direct/block/sdd/bp: seeded cases as described in the harness headers. A solve case is non-trivial when the hierarchy has >= 2 levels and the solve returned; a pmis case when it has a non-isolated unknown; distinct = distinct (sub-check, descriptor) hash.',
+    # oracle history: (1) 'non-finite:*' as an unconditional failure was replaced by "reported and true residual must be non-finite together" plus the
+    # convergence clause -- a diverging Richardson iteration overflows legitimately; (2) the absolute convergence clause for Richardson was replaced by the
+    # differential one above after it fired identically on 1, 2, 3, 4 and 8 ranks (seed 2, solve idx 26 of the 8-rank sequence: res 2.4e47 after 1000 its on
+    # every rank count, bit-identical) -- not a property of the distributed code; (3) over_interp = 1.75 / 2 removed from the generator (coarse correction overshoots).
     min_nontrivial=dict(quick=120, thorough=1500),
     require_obs=dict(quick=['solves', 'solves_with_empty_ranks', 'solves_with_repartition', 'galerkin_entries_checked', 'partition_levels_checked', 'nullspace_entries_checked', 'direct_solves', 'block_solves', 'sdd_solves', 'bp_solves'],
                      thorough=['solves', 'solves_with_empty_ranks', 'solves_with_repartition', 'galerkin_entries_checked', 'partition_levels_checked', 'nullspace_entries_checked', 'direct_solves', 'block_solves', 'sdd_solves', 'bp_solves']),
